@@ -5,6 +5,7 @@ import (
 	"errors"
 	"fmt"
 	"os"
+	"regexp"
 	"runtime"
 	"strings"
 	"time"
@@ -24,6 +25,72 @@ type customErr struct{ Code int }
 
 func (e *customErr) Error() string { return fmt.Sprintf("c06 custom error %d", e.Code) }
 
+// tagErr marks an error made by wrapping another one (wrapWith); inner is the
+// wrapped error, reachable through Unwrap except in the errors.Join form.
+type tagErr struct {
+	mode  int
+	inner error
+}
+
+func (t *tagErr) Error() string { return fmt.Sprintf("c06 tag%d: %v", t.mode, t.inner) }
+func (t *tagErr) Unwrap() error {
+	if t.mode == wrapJoin {
+		return nil
+	}
+	return t.inner
+}
+
+const (
+	wrapNone   = 0 // panic(err) with the error as it is
+	wrapErrorf = 1 // fmt.Errorf("...: %w", ...)
+	wrapCustom = 2 // custom error type with Unwrap
+	wrapJoin   = 3 // errors.Join(marker, err)
+)
+
+// wrapWith builds the panic value a host function makes from the error of its
+// nested call (or from an exit error it made itself).
+func wrapWith(mode int, err error) error {
+	switch mode {
+	case wrapErrorf:
+		return fmt.Errorf("c06 plugin failed: %w", &tagErr{mode, err})
+	case wrapCustom:
+		return &tagErr{mode, err}
+	case wrapJoin:
+		return errors.Join(&tagErr{mode, err}, err)
+	}
+	return err
+}
+
+func wrapClass(mode int, inner string) string {
+	if mode == wrapNone {
+		return inner
+	}
+	return fmt.Sprintf("panic:wrap%d(%s)", mode, inner)
+}
+
+// chameleonErr claims to be everything: Is is always true and As fills in a *sys.ExitError.
+type chameleonErr struct{}
+
+func (*chameleonErr) Error() string { return "c06 chameleon error" }
+func (*chameleonErr) Is(error) bool { return true }
+func (*chameleonErr) As(t any) bool {
+	if p, ok := t.(**sys.ExitError); ok {
+		*p = sys.NewExitError(77)
+		return true
+	}
+	return false
+}
+
+// nilableErr is panicked with as a typed nil.
+type nilableErr struct{ x int }
+
+func (e *nilableErr) Error() string {
+	if e == nil {
+		return "c06 typed nil error"
+	}
+	return fmt.Sprint("c06 nilable ", e.x)
+}
+
 type customStruct struct {
 	A int
 	B string
@@ -42,7 +109,11 @@ var (
 	dynPtr    *customStruct
 	dynZero       = 0
 	dynAny    any = "str"
+	dynNil    any
+	dynTyped  *nilableErr
 )
+
+var rePointerValue = regexp.MustCompile(`(^|: )0x[0-9a-f]+ \(recovered by wazero\)`)
 
 type hostPanic struct {
 	Name  string
@@ -61,6 +132,15 @@ var hostPanics = []hostPanic{
 	{"wrapped-error", "panic:error:wrapped-sentinel", func() { panic(errWrapped) }},
 	{"runtime-int-divide", "", func() { dynSlice[0] = 1 / dynZero }},
 	{"runtime-type-assertion", "", func() { dynSlice[0] = dynAny.(int) }},
+	{"nil", "", func() { panic(dynNil) }}, // *runtime.PanicNilError, a runtime.Error
+	{"func-value", "panic:pointer-value", func() { panic(func() {}) }},
+	{"chan-value", "panic:pointer-value", func() { panic(make(chan int)) }},
+	{"typed-nil-error", "panic:error:typed-nil", func() { panic(error(dynTyped)) }},
+	{"chameleon-error", "panic:error:chameleon", func() { panic(&chameleonErr{}) }},
+	// exit errors made by the host (nothing is closed) and wrapped: host panics, not exits
+	{"errorf-wrapped-exit-0", wrapClass(wrapErrorf, "exit:0"), func() { panic(wrapWith(wrapErrorf, sys.NewExitError(0))) }},
+	{"unwrap-type-wrapped-exit-3", wrapClass(wrapCustom, "exit:3"), func() { panic(wrapWith(wrapCustom, sys.NewExitError(3))) }},
+	{"joined-exit-9", wrapClass(wrapJoin, "exit:9"), func() { panic(wrapWith(wrapJoin, sys.NewExitError(9))) }},
 }
 
 func init() {
@@ -112,15 +192,41 @@ func classify(err error) string {
 	if err == nil {
 		return "ok"
 	}
-	var ee *sys.ExitError
-	if errors.As(err, &ee) {
-		if _, direct := err.(*sys.ExitError); !direct {
-			return fmt.Sprintf("exit-wrapped:%d", ee.ExitCode())
+	// an exit is a bare *sys.ExitError (the documented way to test for it is a type assertion)
+	if ee, direct := err.(*sys.ExitError); direct {
+		if ee == nil {
+			return "exit-nil-pointer"
 		}
 		return exitClass(ee.ExitCode())
 	}
 	text := err.Error()
 	fl := firstLine(text)
+	// a host panic with an error made from another error: the panic value must be reachable
+	var tag *tagErr
+	if errors.As(err, &tag) {
+		if !strings.Contains(fl, "c06 tag") {
+			return fmt.Sprintf("panic:wrap%d-without-text", tag.mode)
+		}
+		return wrapClass(tag.mode, classify(tag.inner))
+	}
+	var cham *chameleonErr
+	if errors.As(err, &cham) { // before every errors.Is / errors.As below, which it would satisfy
+		if !strings.Contains(fl, cham.Error()) {
+			return "panic:error:chameleon-without-text"
+		}
+		return "panic:error:chameleon"
+	}
+	var ee *sys.ExitError
+	if errors.As(err, &ee) {
+		return fmt.Sprintf("exit-wrapped:%d", ee.ExitCode())
+	}
+	var ne *nilableErr
+	if errors.As(err, &ne) {
+		if ne != nil || !strings.Contains(fl, ne.Error()) {
+			return "panic:error:typed-nil-altered"
+		}
+		return "panic:error:typed-nil"
+	}
 	if errors.Is(err, wasmruntime.ErrRuntimeStackOverflow) {
 		return "stack overflow"
 	}
@@ -167,14 +273,22 @@ func classify(err error) string {
 	if strings.Contains(fl, fmt.Sprintf("%v", structPanic)) {
 		return "panic:struct"
 	}
+	if rePointerValue.MatchString(fl) {
+		return "panic:pointer-value"
+	}
 	if len(fl) > 120 {
 		fl = fl[:120]
 	}
 	return "other:" + fl
 }
 
+var reExitCode = regexp.MustCompile(`(exit|ok):\d+`)
+
 // normClass strips case-specific numbers from a class for signatures.
 func normClass(c string) string {
+	if strings.HasPrefix(c, "panic:wrap") {
+		return reExitCode.ReplaceAllString(c, "exit:N")
+	}
 	switch {
 	case strings.HasPrefix(c, "exit:"):
 		return "exit"
@@ -426,7 +540,9 @@ func (e *engine) hop(ctx context.Context, mod api.Module, stack []uint64) {
 		r.hostSeen[level] = c
 	}
 	if err != nil && !s.Catch {
-		panic(err) // propagate the failure of the nested call as this host function's panic value
+		// propagate the failure of the nested call as this host function's panic
+		// value: as it is, or wrapped the way plugin hosts do
+		panic(wrapWith(s.Wrap, err))
 	}
 	if s.ThenHP >= 0 {
 		hostPanics[s.ThenHP].Do()
@@ -922,7 +1038,10 @@ func runHistory(e *engine, ops []*op, probeSel func(i int) bool, log bool) *runn
 		}
 		line := fmt.Sprintf("%d %s -> %s", i, o.Kind, got)
 		label := fmt.Sprintf("%s/%s:%s", o.Kind, failLabel(o), where(o))
-		if got != o.WantClass {
+		if got != o.WantClass && strings.HasPrefix(o.WantClass, "panic:") && strings.HasPrefix(got, "exit:") {
+			r.report(i, fmt.Sprintf("host-panic-reported-as-exit:%s:%s:%s", e.name, normClass(o.WantClass), where(o)),
+				fmt.Sprintf("op %d %s: the host function panicked with a value that is not a bare *sys.ExitError (want %s) but the caller received the bare exit error %v", i, o.desc(), o.WantClass, err))
+		} else if got != o.WantClass {
 			r.report(i, fmt.Sprintf("outcome:%s:%s:want=%s:got=%s", e.name, label, normClass(o.WantClass), normClass(got)),
 				fmt.Sprintf("op %d %s: want %s, got %s\nerror: %v", i, o.desc(), o.WantClass, got, trunc(fmt.Sprint(err), 600)))
 		} else if err == nil && o.WantRes != nil {
@@ -933,7 +1052,10 @@ func runHistory(e *engine, ops []*op, probeSel func(i int) bool, log bool) *runn
 			}
 		}
 		for lvl := range o.WantHost {
-			if r.hostSeen[lvl] != o.WantHost[lvl] {
+			if w, g := o.WantHost[lvl], r.hostSeen[lvl]; w != g && strings.HasPrefix(w, "panic:") && strings.HasPrefix(g, "exit:") {
+				r.report(i, fmt.Sprintf("host-panic-reported-as-exit:%s:%s:nested-call", e.name, normClass(w)),
+					fmt.Sprintf("op %d %s: at nesting level %d the host function's nested call returned the bare exit error %s, model says %s", i, o.desc(), lvl, g, w))
+			} else if r.hostSeen[lvl] != o.WantHost[lvl] {
 				r.report(i, fmt.Sprintf("nested-outcome:%s:%s:want=%s:got=%s", e.name, label, normClass(o.WantHost[lvl]), normClass(r.hostSeen[lvl])),
 					fmt.Sprintf("op %d %s: the host function at nesting level %d observed %q from its nested call, model says %q", i, o.desc(), lvl, r.hostSeen[lvl], o.WantHost[lvl]))
 			}
